@@ -21,6 +21,10 @@
     for every such [e] are tried, and the first one on which contract and model
     both reproduce the observed result is taken (afterwards the records that
     were expired at that instant are dropped from the contract state for good).
+    For a WaitForVersionChange the interval is the one in which its result was
+    decided: the instant at which its context ended for the context's error
+    (the record must still be there, unchanged, then), the interval of the call
+    for ErrNotExist and nil.
 
     Imports models and specs only. *)
 From Coq Require Import List ZArith NArith Arith Bool.
@@ -194,11 +198,9 @@ Fixpoint first_some {A B} (f : A -> option B) (l : list A) : option B :=
   end.
 
 Definition check_step (tol : Z) (c : cstate) (x : obs) : option cstate :=
-  let '(t0, t1) := match o_op x with
-                   | XOp _ => (o_t0 x, o_t1 x)
-                   | XWait _ _ => (o_t1 x, o_t1 x)      (* decided when it returns *)
-                   end in
-  first_some (try_at c x) (cands tol t0 t1 (recs (c_spec c))).
+  (* XWait: the harness passes the interval in which the result was decided: the deadline of the
+     context (t0 = t1) for the context's error, the interval of the call for ErrNotExist / nil *)
+  first_some (try_at c x) (cands tol (o_t0 x) (o_t1 x) (recs (c_spec c))).
 
 (* index (from 0) of the first step that cannot be matched *)
 Fixpoint check_obs (tol : Z) (c : cstate) (l : list obs) (i : nat) : option nat :=
